@@ -19,6 +19,9 @@ package datasource
 
 import (
 	"database/sql"
+	"database/sql/driver"
+	"fmt"
+	"math"
 	"reflect"
 	"strconv"
 )
@@ -69,7 +72,8 @@ func GetScanSlice(types []*sql.ColumnType) []interface{} {
 			scanVal := sql.NullFloat64{}
 			scanSlice = append(scanSlice, &scanVal)
 		case ScanTypeNullInt:
-			scanVal := sql.NullInt64{}
+			// the driver reports NullInt64 for unsigned nullable columns too
+			scanVal := nullInteger{}
 			scanSlice = append(scanSlice, &scanVal)
 		case ScanTypeNullTime:
 			scanVal := sql.NullTime{}
@@ -96,6 +100,66 @@ func GetScanSlice(types []*sql.ColumnType) []interface{} {
 		}
 	}
 	return scanSlice
+}
+
+// nullInteger scans a nullable integer column of either signedness: BIGINT UNSIGNED values beyond
+// math.MaxInt64 do not fit the sql.NullInt64 the driver suggests
+type nullInteger struct {
+	Int64  int64
+	Uint64 uint64 // used when the value does not fit Int64
+	Big    bool
+	Valid  bool
+}
+
+func (n *nullInteger) Scan(src interface{}) error {
+	*n = nullInteger{}
+	if src == nil {
+		return nil
+	}
+	var text string
+	switch v := src.(type) {
+	case int64:
+		n.Int64, n.Valid = v, true
+		return nil
+	case uint64:
+		if v > math.MaxInt64 {
+			n.Uint64, n.Big, n.Valid = v, true, true
+		} else {
+			n.Int64, n.Valid = int64(v), true
+		}
+		return nil
+	case []byte:
+		text = string(v)
+	case string:
+		text = v
+	default:
+		var i sql.NullInt64
+		if err := i.Scan(src); err != nil {
+			return err
+		}
+		n.Int64, n.Valid = i.Int64, i.Valid
+		return nil
+	}
+	if i, err := strconv.ParseInt(text, 10, 64); err == nil {
+		n.Int64, n.Valid = i, true
+		return nil
+	}
+	u, err := strconv.ParseUint(text, 10, 64)
+	if err != nil {
+		return fmt.Errorf("converting %q to an integer: %w", text, err)
+	}
+	n.Uint64, n.Big, n.Valid = u, true, true
+	return nil
+}
+
+func (n nullInteger) Value() (driver.Value, error) {
+	if !n.Valid {
+		return nil, nil
+	}
+	if n.Big {
+		return n.Uint64, nil
+	}
+	return n.Int64, nil
 }
 
 func DeepEqual(x, y interface{}) bool {
